@@ -7,7 +7,9 @@ import OjgVerif.Sen.Layout
 `[`, `{`, `:` and after every element or member, at least one between a scalar and what follows it), `sen.Parser.Parse`
 of `t` is the one document `nvVal o v`, for every tree of the class `admVal` of `C10_tree_partial`.
 
-The tight and the indented `sen.Writer` are such layouts (and have their own theorems, with a modelled writer);
+The tight and the indented `sen.Writer` are such layouts (`tight_isLayout`, `indent_isLayout`, `senWrite_isLayout`: proved
+for every tree of the class, so the relation is wide enough for both modelled writers; they also have their own direct
+theorems);
 `pretty.SEN` / `pretty.WriteSEN` choose white space by width, depth and alignment rules that are NOT modelled: the
 correspondence run asks, for every text they wrote, whether it is a layout of the tree that was written (driver op
 `laycheck` = `Sen.isLayout`), and this theorem turns each positive answer into "that text parses back to
@@ -18,6 +20,7 @@ set_option linter.unusedSectionVars false
 namespace OjgVerif.Sen
 open OjgVerif
 open OjgVerif.Writer (sanitize)
+open OjgVerif.Json (natOf fmtNat Parts render Lead)
 
 /-! ## text facts -/
 
@@ -532,5 +535,492 @@ example : C10.parsesTo "[1 {k: true, nn: [\n x\r\n\ty]}[]]".toUTF8.toList
   · simp only [admVal, admElems, admMembers, omitted, C10.reservedWord, C10.leadingSign]
     decide +kernel
   · decide +kernel
+
+/-! ## the texts of the modelled writers are layouts -/
+
+theorem stripPrefix_append : ∀ (p r : Bytes), stripPrefix p (p ++ r) = some r := by
+  intro p
+  induction p with
+  | nil => intro r; cases r <;> rfl
+  | cons a p ih => intro r; simp [stripPrefix, ih]
+
+/-- the first byte is not white space -/
+def HeadNW (t : Bytes) : Prop := ∃ b r, t = b :: r ∧ isWsB b = false
+
+theorem HeadNW.append {t : Bytes} (h : HeadNW t) (r : Bytes) : HeadNW (t ++ r) := by
+  obtain ⟨b, r', rfl, hb⟩ := h
+  exact ⟨b, r' ++ r, rfl, hb⟩
+
+theorem skipWs_headNW {t : Bytes} (h : HeadNW t) : skipWs t = t ∧ headWs t = false := by
+  obtain ⟨b, r, rfl, hb⟩ := h
+  simp [skipWs, headWs, hb]
+
+theorem ws_class (b : UInt8) (h : isWsB b = true) : senClass b ≠ cO ∧ senClass b ≠ c8 ∧ senClass b ≠ cH := by
+  rcases isWsB_cases b h with rfl | rfl | rfl | rfl | rfl <;> decide +kernel
+
+/-- what `AppendSENString` writes never begins with white space -/
+theorem senString_head (s : Bytes) (html : Bool) : HeadNW (senString s html) := by
+  by_cases hq : s = [] ∨ senQuoted s html = true
+  · rw [C10.quoted_form s html hq]
+    exact ⟨34, _, rfl, by decide⟩
+  · have hne : s ≠ [] := fun h => hq (Or.inl h)
+    have hqf : senQuoted s html = false := by
+      cases h : senQuoted s html with
+      | false => rfl
+      | true => exact absurd (Or.inr h) hq
+    obtain ⟨hss, _, _, b, t, hbt, hc⟩ := C10.bare_facts s html hne hqf
+    rw [hss, hbt]
+    refine ⟨b, t, rfl, ?_⟩
+    cases hw : isWsB b with
+    | false => rfl
+    | true =>
+      obtain ⟨h1, h2, h3⟩ := ws_class b hw
+      rcases hc with h | h | h
+      · exact absurd h h1
+      · exact absurd h h2
+      · exact absurd h h3
+
+theorem fmtInt_head (i : Int) : HeadNW (fmtInt i) := by
+  obtain ⟨d, ds, he, hds, h0, h19⟩ := Writer.fmtNat_shape i.natAbs
+  rw [fmtNat_eq] at he
+  by_cases hneg : i < 0
+  · exact ⟨45, d :: ds, by simp [fmtInt, hneg, he], by decide⟩
+  · refine ⟨d, ds, by simp [fmtInt, hneg, he], ?_⟩
+    by_cases hz : i.natAbs = 0
+    · rw [(h0 hz).1]; decide
+    · have := h19 (by omega)
+      cases hw : isWsB d with
+      | false => rfl
+      | true => rcases isWsB_cases d hw with rfl | rfl | rfl | rfl | rfl <;> simp [Json.Spec.isDigit19] at this
+
+theorem numAdm_head (t : Bytes) (h : NumAdm t) : HeadNW t := by
+  obtain ⟨q, hw, hl, hb, rfl⟩ := h
+  obtain ⟨s, ip, fo, eo⟩ := q
+  simp only at hl
+  cases s with
+  | true => exact ⟨45, ip ++ (Json.fracTxt fo ++ Json.expTxt eo), by simp [render, Json.sgnTxt], by decide⟩
+  | false =>
+    rcases hl with rfl | ⟨d, ds, rfl, hd⟩
+    · exact ⟨48, Json.fracTxt fo ++ Json.expTxt eo, by simp [render, Json.sgnTxt], by decide⟩
+    · refine ⟨d, ds ++ (Json.fracTxt fo ++ Json.expTxt eo), by simp [render, Json.sgnTxt], ?_⟩
+      cases hw : isWsB d with
+      | false => rfl
+      | true => rcases isWsB_cases d hw with rfl | rfl | rfl | rfl | rfl <;> simp [Json.Spec.isDigit19] at hd
+
+/-- no value of the class begins with white space (tight text) -/
+theorem tightVal_head (o : WOpts) (v : JV) (hadm : admVal o v) : HeadNW (tightVal o v) := by
+  cases v with
+  | null => exact ⟨110, _, rfl, by decide⟩
+  | bool b => cases b <;> exact ⟨_, _, rfl, by decide⟩
+  | int i => exact fmtInt_head i
+  | flt t => exact numAdm_head t hadm
+  | big t => exact absurd hadm (by simp [admVal])
+  | num t => exact absurd hadm (by simp [admVal])
+  | str s => exact senString_head s o.html
+  | arr xs => exact ⟨91, tightElems o xs, by simp [tightVal], by decide⟩
+  | obj kvs => exact ⟨123, tightMembers o kvs true, by simp [tightVal], by decide⟩
+
+theorem tightElems_head (o : WOpts) (xs : List JV) (hadm : admElems o xs) : HeadNW (tightElems o xs) := by
+  cases xs with
+  | nil => exact ⟨93, [], by simp [tightElems], by decide⟩
+  | cons x r =>
+    obtain ⟨h1, _⟩ : admVal o x ∧ admElems o r := hadm
+    cases r with
+    | nil => simpa [tightElems] using (tightVal_head o x h1).append [93]
+    | cons y r' =>
+      have : tightElems o (x :: y :: r') = tightVal o x ++ ((if needSep x then [32] else []) ++ tightElems o (y :: r')) := by
+        simp [tightElems]
+      rw [this]
+      exact (tightVal_head o x h1).append _
+
+/-- the members that follow a written member begin with a blank -/
+theorem tightMembers_follow (o : WOpts) : ∀ (kvs : List (Bytes × JV)), allOmitted o kvs = false →
+    ∃ T, tightMembers o kvs false = 32 :: T := by
+  intro kvs
+  induction kvs with
+  | nil => intro h; simp [allOmitted] at h
+  | cons kv r ih =>
+    obtain ⟨k, v⟩ := kv
+    intro h
+    cases hom : omitted o v with
+    | true =>
+      simp only [allOmitted, hom, Bool.true_and] at h
+      obtain ⟨T, hT⟩ := ih h
+      exact ⟨T, by simp [tightMembers, hom, hT]⟩
+    | false => exact ⟨senString k o.html ++ 58 :: (tightVal o v ++ tightMembers o r false), by simp [tightMembers, hom]⟩
+
+theorem tightMembers_allOmitted (o : WOpts) : ∀ (kvs : List (Bytes × JV)) (first : Bool), allOmitted o kvs = true →
+    tightMembers o kvs first = [125] := by
+  intro kvs
+  induction kvs with
+  | nil => intro first _; simp [tightMembers]
+  | cons kv r ih =>
+    obtain ⟨k, v⟩ := kv
+    intro first h
+    simp only [allOmitted, Bool.and_eq_true] at h
+    simp [tightMembers, h.1, ih first h.2]
+
+def TV (o : WOpts) (v : JV) : Prop := ∀ rest, layVal o v (tightVal o v ++ rest) = some rest
+def TE (o : WOpts) (xs : List JV) : Prop := ∀ rest, layElems o xs (tightElems o xs ++ rest) = some rest
+def TM (o : WOpts) (kvs : List (Bytes × JV)) : Prop :=
+  ∀ first rest, layMembers o kvs (skipWs (tightMembers o kvs first ++ rest)) = some rest
+
+section tight
+variable (o : WOpts)
+
+theorem TV_scalar (v : JV) (hs : needSep v = true) : TV o v := by
+  intro rest
+  rw [layVal_scalar o v hs, stripPrefix_append]
+
+theorem TE_nil : TE o [] := by
+  intro rest
+  simp [tightElems, layElems]
+
+theorem TE_cons (x : JV) (r : List JV) (hx : admVal o x) (hr : admElems o r) (hV : TV o x) (hE : TE o r) : TE o (x :: r) := by
+  intro rest
+  cases r with
+  | nil =>
+    have e : tightElems o [x] ++ rest = tightVal o x ++ (93 :: rest) := by simp [tightElems]
+    rw [e]
+    simp only [layElems, hV (93 :: rest), List.isEmpty_nil, Bool.not_true, Bool.and_false, Bool.false_eq_true, ↓reduceIte]
+    simp [skipWs, isWsB]
+  | cons y r' =>
+    have e : tightElems o (x :: y :: r') ++ rest =
+        tightVal o x ++ ((if needSep x then [32] else []) ++ (tightElems o (y :: r') ++ rest)) := by
+      simp [tightElems, List.append_assoc]
+    have hh := (tightElems_head o (y :: r') hr).append rest
+    obtain ⟨hsk, hhw⟩ := skipWs_headNW hh
+    rw [e, layElems, hV]
+    simp only
+    cases hn : needSep x with
+    | true =>
+      have h1 : headWs ([32] ++ (tightElems o (y :: r') ++ rest)) = true := rfl
+      have h2 : skipWs ([32] ++ (tightElems o (y :: r') ++ rest)) = skipWs (tightElems o (y :: r') ++ rest) := by
+        simp [skipWs, isWsB]
+      simp only [↓reduceIte, h1, h2, hsk, Bool.not_true, Bool.and_false, Bool.false_and, Bool.false_eq_true]
+      exact hE rest
+    | false =>
+      simp only [Bool.false_eq_true, ↓reduceIte, List.nil_append, Bool.false_and, hsk]
+      exact hE rest
+
+theorem TM_nil : TM o [] := by
+  intro first rest
+  simp [tightMembers, layMembers, skipWs, isWsB]
+
+theorem TM_cons (k : Bytes) (v : JV) (r : List (Bytes × JV)) (hv : omitted o v = false → admVal o v ∧ TV o v)
+    (hM : TM o r) : TM o ((k, v) :: r) := by
+  intro first rest
+  cases hom : omitted o v with
+  | true =>
+    have e1 : tightMembers o ((k, v) :: r) first = tightMembers o r first := by simp [tightMembers, hom]
+    rw [e1]
+    simp only [layMembers, hom, ↓reduceIte]
+    exact hM first rest
+  | false =>
+    obtain ⟨hadm, hV⟩ := hv hom
+    have e1 : tightMembers o ((k, v) :: r) first ++ rest =
+        (if first then [] else [32]) ++ (senString k o.html ++ 58 :: (tightVal o v ++ (tightMembers o r false ++ rest))) := by
+      simp [tightMembers, hom, List.append_assoc]
+    have hk := (senString_head k o.html).append (58 :: (tightVal o v ++ (tightMembers o r false ++ rest)))
+    obtain ⟨hsk, _⟩ := skipWs_headNW hk
+    have e2 : skipWs (tightMembers o ((k, v) :: r) first ++ rest) =
+        senString k o.html ++ 58 :: (tightVal o v ++ (tightMembers o r false ++ rest)) := by
+      rw [e1]
+      cases first with
+      | true => simpa using hsk
+      | false => simp only [Bool.false_eq_true, ↓reduceIte, List.cons_append, List.nil_append, skipWs, isWsB,
+                   decide_true, Bool.true_or, Bool.or_true]; exact hsk
+    rw [e2]
+    simp only [layMembers, hom, Bool.false_eq_true, ↓reduceIte, stripPrefix_append]
+    have hvh := (tightVal_head o v hadm).append (tightMembers o r false ++ rest)
+    rw [(skipWs_headNW hvh).1, hV]
+    simp only
+    -- what follows the value
+    cases hall : allOmitted o r with
+    | true =>
+      simp only [Bool.not_true, Bool.and_false, Bool.false_eq_true, ↓reduceIte]
+      exact hM false rest
+    | false =>
+      obtain ⟨T, hT⟩ := tightMembers_follow o r hall
+      have : headWs (tightMembers o r false ++ rest) = true := by rw [hT]; simp [headWs, isWsB]
+      simp only [this, Bool.not_true, Bool.and_false, Bool.false_and, Bool.false_eq_true, ↓reduceIte]
+      exact hM false rest
+
+theorem TV_arr (xs : List JV) (hadm : admElems o xs) (hE : TE o xs) : TV o (.arr xs) := by
+  intro rest
+  have hh := (tightElems_head o xs hadm).append rest
+  have e : tightVal o (.arr xs) ++ rest = 91 :: (tightElems o xs ++ rest) := by simp [tightVal]
+  rw [e]
+  simp only [layVal, ↓reduceIte, (skipWs_headNW hh).1]
+  exact hE rest
+
+theorem TV_obj (kvs : List (Bytes × JV)) (hM : TM o kvs) : TV o (.obj kvs) := by
+  intro rest
+  have e : tightVal o (.obj kvs) ++ rest = 123 :: (tightMembers o kvs true ++ rest) := by simp [tightVal]
+  rw [e]
+  simp only [layVal, ↓reduceIte]
+  exact hM true rest
+
+theorem claimsT_all : ∀ n : Nat,
+    (∀ v, jsz v ≤ n → admVal o v → TV o v) ∧
+    (∀ xs, jszE xs ≤ n → admElems o xs → TE o xs) ∧
+    (∀ kvs, jszM kvs ≤ n → admMembers o kvs → TM o kvs) := by
+  intro n
+  induction n with
+  | zero =>
+    refine ⟨fun v hv => ?_, fun xs hx _ => ?_, fun kvs hk _ => ?_⟩
+    · have := jsz_pos v; omega
+    · cases xs with
+      | nil => exact TE_nil o
+      | cons x r => simp [jszE] at hx
+    · cases kvs with
+      | nil => exact TM_nil o
+      | cons kv r => obtain ⟨k, v⟩ := kv; simp [jszM] at hk
+  | succ n ih =>
+    obtain ⟨ihV, ihE, ihM⟩ := ih
+    refine ⟨fun v hv hadm => ?_, fun xs hx hadm => ?_, fun kvs hk hadm => ?_⟩
+    · cases v with
+      | arr xs => exact TV_arr o xs hadm (ihE xs (by simp [jsz] at hv; omega) hadm)
+      | obj kvs => exact TV_obj o kvs (ihM kvs (by simp [jsz] at hv; omega) hadm)
+      | null => exact TV_scalar o _ rfl
+      | bool b => exact TV_scalar o _ rfl
+      | str s => exact TV_scalar o _ rfl
+      | int i => exact TV_scalar o _ rfl
+      | flt t => exact TV_scalar o _ rfl
+      | big t => exact TV_scalar o _ rfl
+      | num t => exact TV_scalar o _ rfl
+    · cases xs with
+      | nil => exact TE_nil o
+      | cons x r =>
+        obtain ⟨hx1, hx2⟩ : admVal o x ∧ admElems o r := hadm
+        have hsz : 1 + jsz x + jszE r ≤ n + 1 := hx
+        exact TE_cons o x r hx1 hx2 (ihV x (by omega) hx1) (ihE r (by omega) hx2)
+    · cases kvs with
+      | nil => exact TM_nil o
+      | cons kv r =>
+        obtain ⟨k, v⟩ := kv
+        obtain ⟨hk1, hk2⟩ : (omitted o v = true ∨ (¬ C10.leadingSign k o.html ∧ admVal o v)) ∧ admMembers o r := hadm
+        have hsz : 1 + jsz v + jszM r ≤ n + 1 := hk
+        refine TM_cons o k v r (fun hom => ?_) (ihM r (by omega) hk2)
+        rcases hk1 with h | ⟨_, h2⟩
+        · rw [hom] at h; cases h
+        · exact ⟨h2, ihV v (by omega) h2⟩
+
+end tight
+
+/-- **the tight writer's text is a layout of the tree** -/
+theorem tight_isLayout (o : WOpts) (v : JV) (hadm : admVal o v) : isLayout o v (tightVal o v) = true := by
+  have h := (claimsT_all o (jsz v)).1 v (Nat.le_refl _) hadm []
+  rw [List.append_nil] at h
+  simp [isLayout, h]
+
+/-! ### the indented writer -/
+
+theorem skipWs_sep (io : IOpts) (d : Nat) (T : Bytes) :
+    skipWs (indentSep io d ++ T) = skipWs T ∧ headWs (indentSep io d ++ T) = true := by
+  obtain ⟨t, hs, ht⟩ := indentSep_shape io d
+  rw [hs]
+  refine ⟨?_, by simp [headWs, isWsB]⟩
+  have : ∀ (t : Bytes), (∀ x ∈ t, x = 32 ∨ x = 9) → skipWs (t ++ T) = skipWs T := by
+    intro t
+    induction t with
+    | nil => intro _; rfl
+    | cons b r ih =>
+      intro h
+      have hb : isWsB b = true := by rcases h b List.mem_cons_self with rfl | rfl <;> decide
+      simp only [List.cons_append, skipWs, hb, ↓reduceIte]
+      exact ih (fun x hx => h x (List.mem_cons_of_mem _ hx))
+  simp only [List.cons_append, skipWs, isWsB, decide_true, Bool.or_true, ↓reduceIte]
+  exact this t ht
+
+theorem indentVal_head (o : WOpts) (io : IOpts) (d : Nat) (v : JV) (hadm : admVal o v) : HeadNW (indentVal o io d v) := by
+  cases v with
+  | arr xs =>
+    cases xs with
+    | nil => exact ⟨91, [93], by simp [indentVal], by decide⟩
+    | cons x r => exact ⟨91, indentElems o io d (x :: r), by simp [indentVal], by decide⟩
+  | obj kvs => exact ⟨123, indentMembers o io d kvs, by simp [indentVal], by decide⟩
+  | null => rw [indentVal_scalar o io d _ rfl]; exact tightVal_head o _ hadm
+  | bool b => rw [indentVal_scalar o io d _ rfl]; exact tightVal_head o _ hadm
+  | int i => rw [indentVal_scalar o io d _ rfl]; exact tightVal_head o _ hadm
+  | flt t => rw [indentVal_scalar o io d _ rfl]; exact tightVal_head o _ hadm
+  | big t => rw [indentVal_scalar o io d _ rfl]; exact tightVal_head o _ hadm
+  | num t => rw [indentVal_scalar o io d _ rfl]; exact tightVal_head o _ hadm
+  | str s => rw [indentVal_scalar o io d _ rfl]; exact tightVal_head o _ hadm
+
+theorem indentElems_ws (o : WOpts) (io : IOpts) (d : Nat) (xs : List JV) (T : Bytes) :
+    headWs (indentElems o io d xs ++ T) = true := by
+  cases xs with
+  | nil => simpa [indentElems, List.append_assoc] using (skipWs_sep io d (93 :: T)).2
+  | cons x r => simpa [indentElems, List.append_assoc] using (skipWs_sep io (d + 1) _).2
+
+theorem indentMembers_ws (o : WOpts) (io : IOpts) (d : Nat) : ∀ (kvs : List (Bytes × JV)) (T : Bytes),
+    headWs (indentMembers o io d kvs ++ T) = true := by
+  intro kvs
+  induction kvs with
+  | nil => intro T; simpa [indentMembers, List.append_assoc] using (skipWs_sep io d (125 :: T)).2
+  | cons kv r ih =>
+    obtain ⟨k, v⟩ := kv
+    intro T
+    cases hom : omitted o v with
+    | true => simpa [indentMembers, hom] using ih T
+    | false => simpa [indentMembers, hom, List.append_assoc] using (skipWs_sep io (d + 1) _).2
+
+def IV (o : WOpts) (io : IOpts) (v : JV) : Prop := ∀ d rest, layVal o v (indentVal o io d v ++ rest) = some rest
+def IE (o : WOpts) (io : IOpts) (xs : List JV) : Prop :=
+  ∀ d rest, layElems o xs (skipWs (indentElems o io d xs ++ rest)) = some rest
+def IM (o : WOpts) (io : IOpts) (kvs : List (Bytes × JV)) : Prop :=
+  ∀ d rest, layMembers o kvs (skipWs (indentMembers o io d kvs ++ rest)) = some rest
+
+section indented
+variable (o : WOpts) (io : IOpts)
+
+theorem IV_scalar (v : JV) (hs : needSep v = true) : IV o io v := by
+  intro d rest
+  rw [indentVal_scalar o io d v hs, layVal_scalar o v hs, stripPrefix_append]
+
+theorem IE_nil : IE o io [] := by
+  intro d rest
+  have e : indentElems o io d [] ++ rest = indentSep io d ++ (93 :: rest) := by simp [indentElems]
+  rw [e, (skipWs_sep io d _).1]
+  simp [skipWs, isWsB, layElems]
+
+theorem IE_cons (x : JV) (r : List JV) (hx : admVal o x) (hV : IV o io x) (hE : IE o io r) : IE o io (x :: r) := by
+  intro d rest
+  have e : indentElems o io d (x :: r) ++ rest =
+      indentSep io (d + 1) ++ (indentVal o io (d + 1) x ++ (indentElems o io d r ++ rest)) := by
+    simp [indentElems, List.append_assoc]
+  have hh := (indentVal_head o io (d + 1) x hx).append (indentElems o io d r ++ rest)
+  rw [e, (skipWs_sep io (d + 1) _).1, (skipWs_headNW hh).1, layElems, hV]
+  simp only [indentElems_ws, Bool.not_true, Bool.and_false, Bool.false_and, Bool.false_eq_true, ↓reduceIte]
+  exact hE d rest
+
+theorem IM_nil : IM o io [] := by
+  intro d rest
+  have e : indentMembers o io d [] ++ rest = indentSep io d ++ (125 :: rest) := by simp [indentMembers]
+  rw [e, (skipWs_sep io d _).1]
+  simp [skipWs, isWsB, layMembers]
+
+theorem IM_cons (k : Bytes) (v : JV) (r : List (Bytes × JV)) (hv : omitted o v = false → admVal o v ∧ IV o io v)
+    (hM : IM o io r) : IM o io ((k, v) :: r) := by
+  intro d rest
+  cases hom : omitted o v with
+  | true =>
+    have e1 : indentMembers o io d ((k, v) :: r) = indentMembers o io d r := by simp [indentMembers, hom]
+    rw [e1]
+    simp only [layMembers, hom, ↓reduceIte]
+    exact hM d rest
+  | false =>
+    obtain ⟨hadm, hV⟩ := hv hom
+    have e1 : indentMembers o io d ((k, v) :: r) ++ rest =
+        indentSep io (d + 1) ++ (senString k o.html ++ 58 :: (32 :: (indentVal o io (d + 1) v ++ (indentMembers o io d r ++ rest)))) := by
+      simp [indentMembers, hom, List.append_assoc]
+    have hk := (senString_head k o.html).append (58 :: (32 :: (indentVal o io (d + 1) v ++ (indentMembers o io d r ++ rest))))
+    have hvh := (indentVal_head o io (d + 1) v hadm).append (indentMembers o io d r ++ rest)
+    have h32 : skipWs (32 :: (indentVal o io (d + 1) v ++ (indentMembers o io d r ++ rest))) =
+        indentVal o io (d + 1) v ++ (indentMembers o io d r ++ rest) := by
+      simp only [skipWs, isWsB, decide_true, Bool.true_or, Bool.or_true, ↓reduceIte]
+      exact (skipWs_headNW hvh).1
+    rw [e1, (skipWs_sep io (d + 1) _).1, (skipWs_headNW hk).1]
+    simp only [layMembers, hom, Bool.false_eq_true, ↓reduceIte, stripPrefix_append, h32]
+    rw [hV]
+    simp only [indentMembers_ws, Bool.not_true, Bool.and_false, Bool.false_and, Bool.false_eq_true, ↓reduceIte]
+    exact hM d rest
+
+theorem IV_arr (xs : List JV) (hE : IE o io xs) : IV o io (.arr xs) := by
+  intro d rest
+  cases xs with
+  | nil => simp [indentVal, layVal, layElems, skipWs, isWsB]
+  | cons x r =>
+    have e : indentVal o io d (.arr (x :: r)) ++ rest = 91 :: (indentElems o io d (x :: r) ++ rest) := by simp [indentVal]
+    rw [e]
+    simp only [layVal, ↓reduceIte]
+    exact hE d rest
+
+theorem IV_obj (kvs : List (Bytes × JV)) (hM : IM o io kvs) : IV o io (.obj kvs) := by
+  intro d rest
+  have e : indentVal o io d (.obj kvs) ++ rest = 123 :: (indentMembers o io d kvs ++ rest) := by simp [indentVal]
+  rw [e]
+  simp only [layVal, ↓reduceIte]
+  exact hM d rest
+
+theorem claimsIL_all : ∀ n : Nat,
+    (∀ v, jsz v ≤ n → admVal o v → IV o io v) ∧
+    (∀ xs, jszE xs ≤ n → admElems o xs → IE o io xs) ∧
+    (∀ kvs, jszM kvs ≤ n → admMembers o kvs → IM o io kvs) := by
+  intro n
+  induction n with
+  | zero =>
+    refine ⟨fun v hv => ?_, fun xs hx _ => ?_, fun kvs hk _ => ?_⟩
+    · have := jsz_pos v; omega
+    · cases xs with
+      | nil => exact IE_nil o io
+      | cons x r => simp [jszE] at hx
+    · cases kvs with
+      | nil => exact IM_nil o io
+      | cons kv r => obtain ⟨k, v⟩ := kv; simp [jszM] at hk
+  | succ n ih =>
+    obtain ⟨ihV, ihE, ihM⟩ := ih
+    refine ⟨fun v hv hadm => ?_, fun xs hx hadm => ?_, fun kvs hk hadm => ?_⟩
+    · cases v with
+      | arr xs => exact IV_arr o io xs (ihE xs (by simp [jsz] at hv; omega) hadm)
+      | obj kvs => exact IV_obj o io kvs (ihM kvs (by simp [jsz] at hv; omega) hadm)
+      | null => exact IV_scalar o io _ rfl
+      | bool b => exact IV_scalar o io _ rfl
+      | str s => exact IV_scalar o io _ rfl
+      | int i => exact IV_scalar o io _ rfl
+      | flt t => exact IV_scalar o io _ rfl
+      | big t => exact IV_scalar o io _ rfl
+      | num t => exact IV_scalar o io _ rfl
+    · cases xs with
+      | nil => exact IE_nil o io
+      | cons x r =>
+        obtain ⟨hx1, hx2⟩ : admVal o x ∧ admElems o r := hadm
+        have hsz : 1 + jsz x + jszE r ≤ n + 1 := hx
+        exact IE_cons o io x r hx1 (ihV x (by omega) hx1) (ihE r (by omega) hx2)
+    · cases kvs with
+      | nil => exact IM_nil o io
+      | cons kv r =>
+        obtain ⟨k, v⟩ := kv
+        obtain ⟨hk1, hk2⟩ : (omitted o v = true ∨ (¬ C10.leadingSign k o.html ∧ admVal o v)) ∧ admMembers o r := hadm
+        have hsz : 1 + jsz v + jszM r ≤ n + 1 := hk
+        refine IM_cons o io k v r (fun hom => ?_) (ihM r (by omega) hk2)
+        rcases hk1 with h | ⟨_, h2⟩
+        · rw [hom] at h; cases h
+        · exact ⟨h2, ihV v (by omega) h2⟩
+
+end indented
+
+/-- **the indented writer's text is a layout of the tree** -/
+theorem indent_isLayout (o : WOpts) (io : IOpts) (d : Nat) (v : JV) (hadm : admVal o v) :
+    isLayout o v (indentVal o io d v) = true := by
+  have h := (claimsIL_all o io (jsz v)).1 v (Nat.le_refl _) hadm d []
+  rw [List.append_nil] at h
+  simp [isLayout, h]
+
+/-- **every text of `sen.Writer` is a layout of the tree written** (so `C10_layout_partial` is also an instance of
+`C10_anylayout_partial`, and the relation `isLayout` is wide enough for both modelled writers) -/
+theorem senWrite_isLayout (o : WOpts) (io : IOpts) (v : JV) (hadm : admVal o v) : isLayout o v (senWrite o io v) = true := by
+  unfold senWrite
+  split
+  · exact indent_isLayout o io 0 v hadm
+  · exact tight_isLayout o v hadm
+
+/-- a layout of a scalar is the scalar's text itself: with `C10_top_partial` the any-layout theorem also covers a scalar
+as the whole document (pretty.SEN of a scalar) -/
+theorem C10_anylayout_top (o : WOpts) (v : JV) (t : Bytes) (hs : needSep v = true) (hadm : admVal o v)
+    (hef : ∀ s, v = .str s → ¬ topLevelEF s o.html) (hl : isLayout o v t = true) : C10.parsesTo t (nvVal o v) := by
+  have hlv : layVal o v t = some [] := by
+    unfold isLayout at hl
+    split at hl
+    · rename_i h; exact h
+    · cases hl
+  rw [layVal_scalar o v hs] at hlv
+  have ht := stripPrefix_some _ _ _ hlv
+  rw [List.append_nil] at ht
+  have h := C10_top_partial o {} v hs hadm hef
+  have e : senWrite o {} v = tightVal o v := by simp [senWrite, usesIndented]
+  rw [e] at h
+  rw [ht]; exact h
 
 end OjgVerif.Sen
